@@ -13,7 +13,7 @@
    sequences no program contains), every configuration and every keep file. *)
 From PV Require Import Base.Prelude Spec.LuaLex Instances.HoldsC02 Instances.HoldsC01
   Generated.T_lexer Model.NameFactory Model.Lexer Model.TokWriters
-  Proofs.LuaLexFacts Proofs.TokWritersProofs Proofs.MinifyRelex Proofs.MinifyRelations.
+  Proofs.LuaLexFacts Proofs.TokWritersProofs Proofs.MinifyRelex Proofs.MinifyRelations Proofs.MinifyEndToEnd.
 
 (* the writer never raises *)
 Theorem C01_minify_total : forall cfg ts, exists chunks, minify cfg ts = Ok chunks.
@@ -41,6 +41,20 @@ Theorem C01_holds : forall cfg src ss ts chunks,
   holds_C01 src (concat chunks) = true.
 Proof. exact holds_C01_minify. Qed.
 Print Assumptions C01_holds.
+
+(* composed with C07 (the lexer worker's lex_agrees_code, Proofs/LexerView.v: on every byte string
+   of the dialect the lexer model succeeds and lexer_agrees holds): no hypothesis about the lexer
+   is left.  luamin_text = lexer model, then writer model.  For EVERY byte string src: inside the
+   dialect luamin succeeds and holds_C01 is true of its output; outside, no claim is made *)
+Theorem C01_end_to_end : forall cfg src ss, Forall byte src -> spec_toks src = Some ss ->
+  exists out, luamin_text cfg [src] = Ok out /\ holds_C01 src out = true /\ holds_C19 src out = true.
+Proof. exact luamin_end_to_end. Qed.
+Print Assumptions C01_end_to_end.
+
+Theorem C01_holds_all : forall cfg src out, Forall byte src -> luamin_text cfg [src] = Ok out ->
+  holds_C01 src out = true /\ holds_C19 src out = true.
+Proof. exact luamin_holds_all. Qed.
+Print Assumptions C01_holds_all.
 
 (* directly on reference tokens (the writer only looks at class and code) *)
 Theorem C01_holds_spec_tokens : forall cfg src ss chunks,
